@@ -56,12 +56,27 @@ def run(cmd, timeout, mem_gb, cwd=None, stdout=None):
             resource.setrlimit(resource.RLIMIT_AS, (b, b))
         os.setsid()
     t0 = time.time()
+    p = subprocess.Popen(cmd, cwd=cwd, stdout=subprocess.PIPE if stdout is None else stdout, stderr=subprocess.PIPE, preexec_fn=lim)
     try:
-        p = subprocess.run(cmd, cwd=cwd, stdout=subprocess.PIPE if stdout is None else stdout,
-                           stderr=subprocess.PIPE, timeout=timeout, preexec_fn=lim)
-        return p.returncode, (p.stdout or b"").decode("utf-8", "replace"), p.stderr.decode("utf-8", "replace"), time.time() - t0
-    except subprocess.TimeoutExpired as e:
-        return -999, (e.stdout or b"").decode("utf-8", "replace") if e.stdout else "", "TIMEOUT", time.time() - t0
+        out, err = p.communicate(timeout=timeout)
+        return p.returncode, (out or b"").decode("utf-8", "replace"), (err or b"").decode("utf-8", "replace"), time.time() - t0
+    except subprocess.TimeoutExpired:
+        # kill the whole process group: cbmc's external solver (cvc5/z3) must not survive as an orphan
+        try:
+            os.killpg(p.pid, 9)
+        except Exception:
+            p.kill()
+        try:
+            p.communicate(timeout=10)
+        except Exception:
+            pass
+        return -999, "", "TIMEOUT", time.time() - t0
+    finally:
+        if p.poll() is None:
+            try:
+                os.killpg(p.pid, 9)
+            except Exception:
+                pass
 
 
 def symbol_table(gb):
@@ -432,7 +447,7 @@ def fetch_trace(u, gb, obligation, wd):
                     if data_ is None and "members" in val:
                         data_ = {m.get("name"): m.get("value", {}).get("data") for m in val["members"]}
                     fn = loc.get("function", "")
-                    if fn == u.entry or st.get("assignmentType") == "actual-parameter" or lhs.startswith("verif_"):
+                    if fn == u.entry or (loc.get("file") or "").endswith("harness/" + u.harness) or st.get("assignmentType") == "actual-parameter" or lhs.startswith("verif_"):
                         if not lhs.startswith("return_value") and "$" not in lhs and "__CPROVER" not in lhs:
                             inputs[lhs] = data_
                     excerpt.append("%s:%s %s = %s" % (loc.get("function"), loc.get("line"), lhs, data_))
